@@ -26,7 +26,16 @@ import (
 // Rand is a splitmix64 PRNG; every random choice of a run derives from one state.
 type Rand struct{ s uint64 }
 
-func NewRand(seed uint64) *Rand { return &Rand{s: seed*0x9E3779B97F4A7C15 + 0x1234567} }
+// NewRand scrambles the seed through the splitmix64 finaliser so that neighbouring seeds (VERIF_SEED=1,2,3)
+// give unrelated streams (a plain multiple of the increment would only shift the stream by one draw).
+func NewRand(seed uint64) *Rand {
+	z := seed + 0x1234567
+	z = (z ^ (z >> 30)) * 0xBF58476D1CE4E5B9
+	z = (z ^ (z >> 27)) * 0x94D049BB133111EB
+	z = z ^ (z >> 31)
+	z = (z ^ (z >> 33)) * 0xFF51AFD7ED558CCD
+	return &Rand{s: z ^ (z >> 29)}
+}
 
 func (r *Rand) U64() uint64 {
 	r.s += 0x9E3779B97F4A7C15
